@@ -40,7 +40,13 @@ def run(c):
     out = os.path.join(LEAN, "Witverif", "Generated", "HashSites.lean")
     js = os.path.join(VERIF, ".build", "hash_sites.json")
     os.makedirs(os.path.dirname(js), exist_ok=True)
-    rc, o = sh(["python3", os.path.join(VERIF, "tools", "gen_hash_sites.py"), "--repo", REPO, "--out", out, "--json", js])
+    gen = ["python3", os.path.join(VERIF, "tools", "gen_hash_sites.py")]
+    if os.path.realpath(REPO) != "/repo":
+        # a run against a patched copy (VERIF_REPO) must not leave its table behind for the next
+        # pristine build: the table of /repo is written back when this process ends, however it ends
+        import atexit
+        atexit.register(lambda: sh(gen + ["--repo", "/repo", "--out", out, "--json", js + ".restore"]))
+    rc, o = sh(gen + ["--repo", REPO, "--out", out, "--json", js])
     c.checker_cmds.append("python3 tools/gen_hash_sites.py --repo /repo --out lean/Witverif/Generated/HashSites.lean")
     inv = None
     if rc != 0 or not os.path.exists(js):
